@@ -1202,12 +1202,12 @@ Proof.
   intros d services. induction ts as [|t ts IHts]; intros acc Hwf Hsub Hsv.
   - cbn [map load_scheds]. rewrite app_nil_r. reflexivity.
   - assert (Hin : In t (d_trips d)) by (apply Hsub; left; reflexivity).
-    destruct (wf_trip_path d t Hwf Hin) as [p [Hfind [Hlen Hmin]]].
+    destruct (wf_trip_path d t Hwf Hin) as [p [Hfind [Hlen [Hmin Htimes]]]].
     unfold find_path in Hfind.
     cbn [map load_scheds sm_service sm_trips].
     rewrite (Hsv t Hin).
     cbn [load_trips].
-    rewrite (load_trip_encode (d_paths d) (t_service t) t p Hfind Hlen Hmin).
+    rewrite (load_trip_encode (d_paths d) (t_service t) t p Hfind Hlen Hmin Htimes).
     replace {| t_id := t_id t; t_path := t_path t; t_service := t_service t; t_times := t_times t |} with t
       by (destruct t; reflexivity).
     rewrite IHts; [|exact Hwf|intros t' Hin'; apply Hsub; right; exact Hin'|exact Hsv].
